@@ -709,7 +709,7 @@ func (p *Prog) findLocalFuncs() {
 					okAll = false
 				}
 			}
-			if !okAll || nStore == 0 || len(calls) == 0 {
+			if !okAll || len(calls) == 0 {
 				return
 			}
 			p.localFunc[cl] = true
